@@ -30,7 +30,9 @@ PID = 'C06'
 LEAN_MODULES = ['ThermoVerif.Props.C06']
 RULE = ('a case = 1–4 real balanced reactions from a 17-reaction library over 12 chemicals with known Hf (random reactant, '
         'X ∈ [0,1] incl. 0 and 1, mol/wt basis, untagged or phase-tagged with reference / random / invalid phases), optionally '
-        'combined as ParallelReaction / SeriesReaction / ReactionSystem; dH of every reaction and set item; then isothermal and '
+        'combined as ParallelReaction / SeriesReaction / ReactionSystem; dH of every reaction and set item; in 15 % of the cases a '
+        'revision history on fresh Chemical copies (chemical.Hf / .Hfus = … of participating chemicals, chemicals.refresh_constants(), '
+        'before or between the stream operations; reference = the chemicals\' current values); then isothermal and '
         'adiabatic reaction of gas / liquid / multi-phase feeds at 280–450 K (30 % at 298.15 K) with random non-negative '
         'compositions (some deficient → InfeasibleRegion) and heat inputs Q = C·ΔT, ΔT ∈ [−40, 120] K; '
         'non-trivial = a reaction with X ≠ 0 applied to a feed containing its reactant; distinct = distinct op lists')
@@ -52,7 +54,22 @@ tmo = None
 IDS = ['Water', 'Ethanol', 'Methanol', 'Glucose', 'CO2', 'O2', 'H2', 'CH4', 'AceticAcid', 'N2', 'CO', 'EthylAcetate']
 IDS_B = ['N2', 'CO2', 'EthylAcetate', 'Water', 'CH4', 'Glucose', 'O2', 'Methanol', 'H2', 'CO', 'Ethanol', 'AceticAcid']
 THERMO = []           # [thermoA, thermoB]
-CHEM = {}             # independent per-chemical data read from the Chemical objects
+CHEM = {}             # independent per-chemical data read from the CURRENT Chemical objects of the running case
+BASE_CHEM = {}        # the same for the shared (never revised) package
+
+
+def chem_data(chems):
+    """per-chemical data read from the Chemical objects themselves (never from the compiled arrays)"""
+    return {c.ID: dict(Hf=float(c.Hf), MW=float(c.MW), Hvap=float(c.Hvap(TREF)), Hfus=float(c.Hfus), ref=str(c.phase_ref))
+            for c in chems}
+
+
+def fresh_thermos():
+    """two packages (orders A and B) over fresh copies of the chemicals: a case that revises chemical data works on
+    these, so nothing leaks into other cases (or other plugins)"""
+    cs = {c.ID: c.copy(c.ID, CAS=c.CAS) for c in THERMO[0].chemicals}
+    return [tmo.Thermo(tmo.Chemicals([cs[i] for i in IDS]), cache=False),
+            tmo.Thermo(tmo.Chemicals([cs[i] for i in IDS_B]), cache=False)]
 _SETREC = []          # values handed to the H setters
 TREF = 298.15
 # the property models (thermo/chemicals correlations) may reject a state: such a read is outside the quantifier
@@ -92,8 +109,8 @@ def setup():
     ta, tb = tmo.Thermo(ca, cache=False), tmo.Thermo(cb, cache=False)
     THERMO[:] = [ta, tb]
     tmo.settings.set_thermo(ta)
-    for c in ca:
-        CHEM[c.ID] = dict(Hf=float(c.Hf), MW=float(c.MW), Hvap=float(c.Hvap(TREF)), Hfus=float(c.Hfus), ref=str(c.phase_ref))
+    BASE_CHEM.clear(); BASE_CHEM.update(chem_data(ca))
+    CHEM.clear(); CHEM.update({k: dict(v) for k, v in BASE_CHEM.items()})
     fa = ca.formula_array
     for d in LIB:
         v = np.zeros(len(IDS))
@@ -215,16 +232,21 @@ def real_heat(entry, s):
 
 def run_impl(case: Case) -> ImplResult:
     import numpy as np
-    ta, tb = THERMO
+    revising = any(o.startswith('rev ') for o in case.ops)
+    thermos = fresh_thermos() if revising else list(THERMO)
+    ta, tb = thermos
     tmo.settings.set_thermo(ta)
+    CHEM.clear(); CHEM.update(chem_data(ta.chemicals) if revising else {k: dict(v) for k, v in BASE_CHEM.items()})
     model_in, outs, failures, tags = [], [], [], set()
     nontrivial = False
     rx, streams = {}, {}
     def emit(line, ans): model_in.append(line); outs.append(ans)
     def fail(sig, what): failures.append({'signature': sig, 'op_index': len(model_in) - 1, 'what': what})
-    emit('pkg %d hf=%s mw=%s hvap=%s hfus=%s ref=%s' % (
-        len(IDS), frs(CHEM[i]['Hf'] for i in IDS), frs(CHEM[i]['MW'] for i in IDS), frs(CHEM[i]['Hvap'] for i in IDS),
-        frs(CHEM[i]['Hfus'] for i in IDS), ''.join(CHEM[i]['ref'] for i in IDS)), 'ok')
+    def emit_pkg():
+        emit('pkg %d hf=%s mw=%s hvap=%s hfus=%s ref=%s' % (
+            len(IDS), frs(CHEM[i]['Hf'] for i in IDS), frs(CHEM[i]['MW'] for i in IDS), frs(CHEM[i]['Hvap'] for i in IDS),
+            frs(CHEM[i]['Hfus'] for i in IDS), ''.join(CHEM[i]['ref'] for i in IDS)), 'ok')
+    emit_pkg()
 
     def check_dH(v, rec, what):
         ind = indep_dH(rec)
@@ -325,10 +347,31 @@ def run_impl(case: Case) -> ImplResult:
                     emit('dhitem %s %d' % (t[1], k), 'dH=' + fr(v))
                     check_dH(v, m['rec'], f'{type(x["obj"]).__name__}[{k}]')
                     tags.add('dh:item')
+        elif op == 'rev':
+            # revise a chemical's data through the public setters (fresh copies: `revising` is set for this case)
+            ID, attr, val = t[1], t[2], float(t[3])
+            assert revising and attr in ('Hf', 'Hfus')
+            setattr(getattr(ta.chemicals, ID), attr, val)
+            tags.add('rev:' + attr)
+        elif op == 'refresh':
+            # the documented way to propagate revised constants to the compiled arrays
+            for th_ in thermos: th_.chemicals.refresh_constants()
+            CHEM.clear(); CHEM.update(chem_data(ta.chemicals))     # the reference: the chemicals' CURRENT values
+            emit_pkg()
+            for x in rx.values():
+                for m in x['singles']: m['dH'] = None            # heats of reaction read before the revision are stale
+            tags.add('refresh')
+            # the compiled array itself (anchored mechanism) must now show the chemicals' heats of formation
+            for th_ in thermos:
+                for c, v in zip(th_.chemicals, th_.chemicals.Hf):
+                    if float(v) != float(c.Hf):
+                        fail('Hf-array-stale', f'after chemical.Hf = … and chemicals.refresh_constants(), chemicals.Hf[{c.ID}] = '
+                                               f'{float(v)!r} but {c.ID}.Hf = {float(c.Hf)!r}')
+                        break
         elif op == 'S':
             sid, pk, T, P, ph = t[1], int(t[2]), float(t[3]), float(t[4]), t[5]
             flows = [f.split(':') for f in t[6].split(',')] if len(t) > 6 and t[6] else []
-            th = THERMO[pk]
+            th = thermos[pk]
             if len(ph) == 1:
                 s = tmo.Stream(None, T=T, P=P, phase=ph, thermo=th)
                 for ID, p_, a in flows: s.imol[ID] = float(a)
@@ -366,6 +409,10 @@ def run_impl(case: Case) -> ImplResult:
             if any(m['rec']['X'] != 0 and amount(s, m['rec']) > 0 for m in singles): nontrivial = True
             scale0 = sum(abs(CHEM[IDS[k % len(IDS)]]['Hf'] * v) for k, v in enumerate(n0))
             kindtag = '%s:%s:%s' % (x['kind'], basis, 'tagged' if phases else 'untagged')
+            Hf_ind = sum(CHEM[IDS[k % len(IDS)]]['Hf'] * v for k, v in enumerate(n0))
+            if not abs(Hf0 - Hf_ind) <= 1e-9 * scale0 + 1e-12 or not abs(Hnet0 - (H0 + Hf_ind)) <= 1e-9 * (scale0 + abs(H0)) + 1e-12:
+                fail('stream-Hf', f'Stream.Hf = {Hf0!r}, Stream.Hnet − Stream.H = {Hnet0 - H0!r} but Σ Hf_i·n_i over the chemicals\' current '
+                                  f'heats of formation = {Hf_ind!r}')
             if op == 'iso':
                 try:
                     x['obj'](s)
@@ -537,6 +584,8 @@ def equation(d, tagging, rng):
     return lhs + ' -> ' + rhs
 
 
+BASE_HF = {'Water': -285825.0, 'Ethanol': -277030.0, 'Methanol': -238400.0, 'Glucose': -1271100.0, 'CO2': -393474.0, 'O2': 0.0,
+           'H2': 0.0, 'CH4': -74534.0, 'AceticAcid': -483580.0, 'N2': 0.0, 'CO': -110525.0, 'EthylAcetate': -479300.0}
 CHEM_REF = {'Water': 'l', 'Ethanol': 'l', 'Methanol': 'l', 'Glucose': 's', 'CO2': 'g', 'O2': 'g', 'H2': 'g', 'CH4': 'g',
             'AceticAcid': 'l', 'N2': 'g', 'CO': 'g', 'EthylAcetate': 'l'}
 
@@ -584,6 +633,21 @@ def gen_case(rng):
         if any(o.startswith(('P ' + g + ' ', 'Q ' + g + ' ')) for o in ops): ops.append('dh ' + g)
     if tagging == 'bad': return Case(ops, {})
     nused = nrx if structure != 'single' else 1
+    dh_ops = [o for o in ops if o.startswith('dh ')]
+    def revision():
+        # history: compile → revise heats of formation (and fusion) of participating chemicals → refresh_constants()
+        out = []
+        part = sorted({ID for d in lib[:nused] for ID in d})
+        for ID in rng.sample(part, min(len(part), rng.choice([1, 1, 2, 3]))):
+            base = BASE_HF[ID]
+            v = round(base * rng.uniform(0.8, 1.2), 1) if base and rng.random() < 0.8 else float(rng.choice([-1234.5, 2500, -50000]))
+            out.append('rev %s Hf %s' % (ID, num(v)))
+        if tagging and rng.random() < 0.4:
+            out.append('rev %s Hfus %s' % (rng.choice(part), num(rng.choice([1000, 7500.5, 12000]))))
+        return out + ['refresh'] + dh_ops
+    revise = rng.random() < 0.15
+    revise_late = revise and rng.random() < 0.4
+    if revise and not revise_late: ops.extend(revision())
     used, ureact, ueqs = lib[:nused], reactants[:nused], eqs[:nused]
     has_glucose = any('Glucose' in d for d in used)
     for sidx in range(rng.choice([1, 2, 2, 3])):
@@ -632,6 +696,9 @@ def gen_case(rng):
             dT = rng.choice([0, 0, 0, 5, -10, 30, 100]) if rng.random() < 0.7 else round(rng.uniform(-40, 120), 2)
             ops.append('adia %s s%d %s %s' % (top, sidx, num(dT), sph))
             if rng.random() < 0.3: ops.append('iso %s s%d' % (top, sidx))
+        if revise_late and sidx == 0:
+            ops.extend(revision())
+            if rng.random() < 0.5: ops.append('iso %s s0' % top)      # the stream created before the revision
     return Case(ops, {})
 
 
@@ -643,6 +710,14 @@ def generate(rng, tier, index, nworkers):
 
 def corpus():
     return [
+        # compile → revise Hf of participating chemicals → refresh_constants() → dH / Hf / Hnet / isothermal / adiabatic
+        Case(['R r0 mol 0.7 H2 ph=- :: 2 H2 + O2 -> 2 Water', 'R r1 wt 0.7 CH4 ph=- :: CH4 + 2 O2 -> CO2 + 2 Water', 'dh r0', 'dh r1',
+              'S s0 0 298.15 101325 g H2:g:10,CH4:g:4,O2:g:50,Water:g:20,CO2:g:1',
+              'rev Water Hf -245000', 'rev CO2 Hf -390000', 'refresh', 'dh r0', 'dh r1', 'iso r0 s0',
+              'S s1 1 350 101325 g H2:g:10,CH4:g:4,O2:g:50,Water:g:20,CO2:g:1', 'iso r1 s1',
+              'S s2 0 350 101325 g H2:g:10,CH4:g:4,O2:g:50,Water:g:200,CO2:g:1', 'adia r0 s2 0 g']),
+        Case(['R r0 mol 0.5 Glucose ph=gls :: Glucose,l -> 2 Ethanol,l + 2 CO2,s', 'dh r0', 'rev Glucose Hfus 25000', 'rev CO2 Hfus 8000',
+              'rev Ethanol Hf -270000', 'refresh', 'dh r0']),
         # doctest of adiabatic_reaction: hydrogen combustion in steam, then the parallel and series examples
         Case(['R r0 mol 0.7 H2 :: 2 H2 + O2 -> 2 Water', 'dh r0',
               'S s0 0 373.15 101325 g H2:g:10,O2:g:20,Water:g:1000', 'adia r0 s0 0 g',
